@@ -15,7 +15,7 @@ for m in String List; do
 done
 cp ../conv.ml ../*_drv.ml ../driver.ml .
 ORDER=$(ocamlfind ocamldep -sort *.mli *.ml)
-ocamlfind ocamlopt -package zarith -linkpkg -O3 -w -a -o model_run $ORDER 2>/dev/null || ocamlfind ocamlopt -package zarith -linkpkg -w -a -o model_run $ORDER
+ocamlfind ocamlopt -package zarith,unix -linkpkg -O3 -w -a -o model_run $ORDER 2>/dev/null || ocamlfind ocamlopt -package zarith,unix -linkpkg -w -a -o model_run $ORDER
 cd ..
 rm -rf _build
 mv _build.new _build
